@@ -6,8 +6,8 @@ _stubs = [
     "the drained action iterator returned by handle_incoming/handle_timer is leaked (mem::forget) instead of dropped: Kani 0.68 leaves the capacity of the empty vec![] iterator on the accept path unconstrained and reports a spurious __rust_dealloc failure",
 ]
 _bounds48 = ("one handle_incoming, plain (non-NTS) NtpSource<RecCtl> with SourceConfig::default(); pre-state: protocol_version any of V4 / V4UpgradingToV5{1..=8} / UpgradedToV5 / V5, "
-             "pending request none or (any 64-bit id, no uid, deadline = clock reading +/- < 2^20 s), reach any u8, tries any usize, last/remote-min poll any i8 (remote-min <= 126), deny flag any; "
-             "clock: arbitrary non-decreasing instants; packet: 48 bytes, octets 1..47 symbolic, octet 0 (LI|VN|Mode) dispatched over literal values")
+             "pending request none or (any 64-bit id, no uid, deadline = clock reading +/- d with 1.25 s <= d < 2^20 s), reach any u8, tries any usize, last/remote-min poll any i8 (remote-min <= 126), deny flag any; "
+             "clock: one arbitrary instant for all readings of a run (the deadline is arbitrary relative to it); packet: 48 bytes, octets 1..47 symbolic, octet 0 (LI|VN|Mode) dispatched over literal values")
 PROP = dict(
     functions=[
         "ntp_proto::source::NtpSource::<RecCtl>::handle_incoming (incl. process_message, measurements_from_packet)",
@@ -21,6 +21,7 @@ PROP = dict(
         "remote_min_poll_interval <= 126 (see C09)",
         "V4UpgradingToV5.tries_left in 1..=8 (inductive invariant, asserted by C12)",
         "a V4 association also takes version-3 answers (what old servers send); an upgrading one only version 4",
+        "the pending deadline is at least 1.25 s away from the harness's clock reading and its sub-second part lies in [0.25 s, 0.75 s] (never within 0.25 s of a whole-second offset): keeps every deadline comparison stable against native timing jitter, so counterexamples replay under the real clock; deadlines within 1.25 s of `now` are outside the claim",
         "deadline comparisons use a clock reading taken before the call (necessary conditions) and one taken after it (sufficient conditions), so the oracle is also valid under the real clock in native replay",
     ],
     stub_notes=_stubs,
